@@ -1347,7 +1347,13 @@ def magic_fn(ctx: "Wtp", token: str) -> None:
     elif kind == "N":  # Nowiki
         # Replace nowiki by the escaped versions here
         text = nowiki_quote(args[0])
-        text_fn(ctx, text)
+        # The text is not interpreted in any way, so it is not the trail of a
+        # link directly before it either ([[a]]<nowiki>b</nowiki>)
+        ctx.suppress_special = True
+        try:
+            text_fn(ctx, text)
+        finally:
+            ctx.suppress_special = False
     else:
         ctx.error(
             "magic_fn: unsupported cookie kind {!r}".format(kind),
